@@ -35,7 +35,7 @@ def gen(rng, tier, no, wide=False):
     gaps = [0, 1, 2, 3, 5, 10, 30, 60, 1000]
     case["params"] = {"ranks": sorted(rng.sample(sorted(case["ranks"]), rng.randint(1, len(case["ranks"])))),
                       "streams": sel, "delay": rng.choice(gaps) * rng.choice([1, case["cfg"]["grid"]]),
-                      "stats": rng.random() < 0.3}
+                      "stats": rng.random() < 0.3, "frac": rng.random() < 0.1}
     return case
 
 
@@ -71,7 +71,17 @@ def observe(case):
                 canon.setdefault(f"{int(rec.rank)}|{int(rec.stream)}", {})[str(rec.idle_category)] = [C.num(rec.idle_time), C.num(rec.idle_time_ratio)]
         except Exception as e:  # noqa: BLE001
             canon = {"raises": C.exc_name(e) + ": " + str(e)[:100]}
-        return {"rows": rows, "canon": canon, "stats": extra.get("stats")}
+        twin = None
+        if p.get("frac") and "raises" not in canon:
+            def _call(ta2):
+                d2, _ = ta2.get_idle_time_breakdown(ranks=list(p["ranks"]), streams=p["streams"], visualize=False,
+                                                    consecutive_kernel_delay=p["delay"] / 8.0 if p["delay"] % 8 else p["delay"] // 8)
+                o: Dict[str, Any] = {}
+                for rec in d2.itertuples(index=False):
+                    o.setdefault(f"{int(rec.rank)}|{int(rec.stream)}", {})[str(rec.idle_category)] = [C.num(float(rec.idle_time) * 8), C.num(rec.idle_time_ratio)]
+                return o
+            twin = C.frac_twin(case, _call)
+        return {"rows": rows, "canon": canon, "stats": extra.get("stats"), "twin": twin}
     finally:
         htaio.remove_case_dir(files)
 
@@ -129,6 +139,13 @@ def oracle(case, obs) -> List[str]:
     if "raises" in c:
         return [f"analysis raised {c['raises']}"]
     out = []
+    tw = obs.get("twin")
+    if tw is not None:
+        if "raises" in tw:
+            out.append(tw["raises"])
+        elif set(tw) != set(c) or any(set(tw[k]) != set(c[k]) or any(abs(float(tw[k][cat][0]) - float(c[k][cat][0])) > 0.0401 or
+                (tw[k][cat][1] != "nan" and c[k][cat][1] != "nan" and abs(float(tw[k][cat][1]) - float(c[k][cat][1])) > 0.011) for cat in c[k]) for k in c):
+            out.append(f"at one eighth of the time scale (HTA_DISABLE_NS_ROUNDING=1, threshold scaled too) the idle times times 8 (reported to two decimals, so within 0.04) are {tw}, the integer trace gives {c}")
     delay = case["params"]["delay"]
     for r, rows in obs["rows"].items():
         by_idx = {x[0]: x for x in rows}
